@@ -447,7 +447,7 @@ theorem decodeAll_good (l : List Str) (hl : ∀ p ∈ l, GoodP p) :
           · exact Or.inr h
 
 theorem mapLoop_good (pol : Policy) (hf : truthy pol.fmt = true) (l : List Str) (hl : ∀ p ∈ l, GoodP p) :
-    ∃ r, mapLoop pol l = .ok r ∧ ∀ nid, r = some nid → nid ∈ heldOf l := by
+    ∃ r, mapLoop pol l = .ok r ∧ ∀ nid, r = some nid → nid ∈ heldOf l ∧ nid.fmt = pol.fmt ∧ nid.spq = pol.spq := by
   induction l with
   | nil => exact ⟨none, rfl, by simp⟩
   | cons p tl ih =>
@@ -464,10 +464,14 @@ theorem mapLoop_good (pol : Policy) (hf : truthy pol.fmt = true) (l : List Str) 
     · by_cases hc : (n.fmt == pol.fmt && n.spq == pol.spq) = true
       · refine ⟨some n, by rw [mapLoop, hdp]; simp [hc], ?_⟩
         intro nid h; cases h
-        rw [heldOf_cons_some hpn]; exact List.mem_cons_self ..
+        rw [heldOf_cons_some hpn]
+        simp only [Bool.and_eq_true, beq_iff_eq] at hc
+        exact ⟨List.mem_cons_self .., hc.1, hc.2⟩
       · refine ⟨r, by rw [mapLoop, hdp]; simp [hc, hr], ?_⟩
         intro nid h
-        rw [heldOf_cons_some hpn]; exact List.mem_cons_of_mem _ (h1 nid h)
+        rw [heldOf_cons_some hpn]
+        obtain ⟨h2, h3⟩ := h1 nid h
+        exact ⟨List.mem_cons_of_mem _ h2, h3⟩
 
 /-! ### the invariant as the spec sees it -/
 
